@@ -350,6 +350,9 @@ def finish(prop, tier, seed, level, merged, rule, assumptions, t0, extra_cov=Non
             n = merged["excluded"].get(fnd["id"], 0)
             print(f"KNOWN-FINDING: property={prop} {fnd['id']}: {fnd['what_fails']} "
                   f"(observed {n}x in this run)")
+    if cov.get("build_crashes"):
+        print(f"NOTE property={prop}: {cov['build_crashes']} scenario scripts crashed while being built with something "
+              f"else than ScenarioError (not judged here; C11 judges connect()): {cov.get('build_crash_example')}")
     rc = 0
     for sig, f in sorted(by_sig.items()):
         path = f.get("replay_path") or save_replay(prop, f)
